@@ -48,7 +48,7 @@ func (p *policy) restoreAllocations(allocations *allocations) error {
 	// return an error.
 	//
 
-	if err := p.reinstateGrants(allocations.grants); err != nil {
+	if err := p.reinstateGrants(allocations.grants, false); err != nil {
 		log.Error("failed to reinstate grants verbatim: %v", err)
 		containers, poolHints := allocations.getContainerPoolHints()
 		if err := p.reallocateResources(containers, poolHints); err != nil {
@@ -61,8 +61,9 @@ func (p *policy) restoreAllocations(allocations *allocations) error {
 	return nil
 }
 
-// reinstateGrants tries to restore the given grants exactly as such.
-func (p *policy) reinstateGrants(grants map[string]Grant) error {
+// reinstateGrants tries to restore the given grants exactly as such. With
+// justReleased the grants were in effect until a moment ago.
+func (p *policy) reinstateGrants(grants map[string]Grant, justReleased bool) error {
 	// TODO(klihub):
 	//    Our grant reinstating is now too simplistic. restoreMemOffer
 	//    blindly assumes it can take offers for known containers. But
@@ -93,7 +94,11 @@ func (p *policy) reinstateGrants(grants map[string]Grant) error {
 				pool.Name(), c.PrettyName(), err)
 		}
 
-		updates, err := supply.Reserve(grant, o)
+		reserve := supply.Reserve
+		if justReleased {
+			reserve = supply.Restore
+		}
+		updates, err := reserve(grant, o)
 		if err != nil {
 			return policyError("failed to update pool %q with CPU grant of %q: %v",
 				pool.Name(), c.PrettyName(), err)
